@@ -7,7 +7,8 @@
      stepping, C11_step_law), `futE fwd s c` is the list of nodes it would yield if no further edit happened;
    * an edit "touches" the nodes it removes / inserts / moves (`touched`), not the node it is relative to. *)
 From Coq Require Import List Arith ZArith Bool Lia.
-From IRV Require Import Base.Exn C11.Model C11.Proofs C11.Proofs2 C11.Proofs3 C11.Proofs4 C11.Proofs5 C11.Proofs6.
+From IRV Require Import Base.Exn C11.Model C11.Proofs C11.Proofs2 C11.Proofs3 C11.Proofs4 C11.Proofs5 C11.Proofs6
+  C11.ProofsR C11.ProofsR2.
 Import ListNotations.
 
 (* ---- well-formedness: initial state, preserved by every edit (successes and rejections alike) *)
@@ -190,6 +191,95 @@ Theorem C11_cursors_independent :
       yields_of i evs (snd (run_evs (s, cs) evs)) = ys.
 Proof. exact cursors_independent. Qed.
 Print Assumptions C11_cursors_independent.
+
+(* ==== RecursiveGraphIterator: a stack of flat cursors over a forest of lists (gwf = every graph wf, svalid =
+        every frame's cursor was obtained from its graph).  `subs x` = graphs under node x; `rfut` = the pre-order
+        traversal still to come (pending subgraphs of the last yielded node, then the rest of the frame's graph,
+        then the enclosing frames). *)
+
+(* next() never raises / gets stuck, keeps the stack valid, and a yielded node belongs, at that moment, to the
+   graph of the frame now on top; StopIteration leaves the empty stack (stays exhausted) *)
+Theorem C11_rec_step_safe :
+  forall subs fwd gs stack, gwf gs -> svalid fwd gs stack ->
+    exists st' y ev, rnext_stack subs fwd gs stack = Some (st', y, ev) /\ svalid fwd gs st' /\
+      match y with
+      | Some x => exists g c p rest, st' = (g, c, p) :: rest /\ In x (to_list (gs g))
+      | None => st' = []
+      end.
+Proof. exact rnext_stack_ok. Qed.
+Print Assumptions C11_rec_step_safe.
+
+(* edits of any graph keep all graphs well formed and all frames valid (edits never read iterator state) *)
+Theorem C11_rec_edit_safe :
+  forall fwd gs g e stack, gwf gs -> svalid fwd gs stack ->
+    gwf (upd gs g (fst (apply_edit e (gs g)))) /\ svalid fwd (upd gs g (fst (apply_edit e (gs g)))) stack.
+Proof. intros. split; [apply gwf_edit; assumption|apply svalid_edit; assumption]. Qed.
+Print Assumptions C11_rec_edit_safe.
+
+(* on an acyclic forest (rk bounds the nesting) next() yields the head of the pre-order future, leaves its tail *)
+Theorem C11_rec_step_law :
+  forall subs fwd rk gs, gwf gs -> acyc subs rk gs -> forall stack st' y ev,
+    svalid fwd gs stack -> rnext_stack subs fwd gs stack = Some (st', y, ev) ->
+    rfut subs fwd rk gs stack = match y with Some x => x :: rfut subs fwd rk gs st' | None => [] end.
+Proof. exact rnext_stack_fut. Qed.
+Print Assumptions C11_rec_step_law.
+
+(* once edits stop: within |future|+1 calls the traversal is over, having yielded exactly the pre-order future *)
+Theorem C11_rec_terminates :
+  forall subs fwd rk gs, gwf gs -> acyc subs rk gs -> forall n stack,
+    svalid fwd gs stack -> length (rfut subs fwd rk gs stack) < n ->
+    riter subs fwd gs n stack = Some ([], rfut subs fwd rk gs stack).
+Proof. exact riter_terminates. Qed.
+Print Assumptions C11_rec_terminates.
+
+(* the recursive schedule law: nodes live in a fixed graph (`home`), nesting is acyclic (sub_rank); for every
+   interleaving of next() with edits of any graph, and every node set U such that no edit touches a U node or a
+   node with a U node underneath (edit_clear): U-yields so far ++ U-part of the pre-order future = the U-part of
+   the pre-order future at the start *)
+Theorem C11_rec_schedule_law :
+  forall subs fwd rk home, (forall x h, In h (subs x) -> rk h < rk (home x)) ->
+  forall U evs gs stack gs' st' ys,
+    gwf gs -> homed home gs -> svalid fwd gs stack -> redits_ok subs fwd home U evs ->
+    rsrun subs fwd evs gs stack = Some (gs', st', ys) ->
+    filter U ys ++ filter U (rfut subs fwd rk gs' st') = filter U (rfut subs fwd rk gs stack) /\
+    gwf gs' /\ homed home gs' /\ svalid fwd gs' st'.
+Proof. intros subs fwd rk home Hs U evs. exact (rsched_law subs fwd rk home Hs U evs). Qed.
+Print Assumptions C11_rec_schedule_law.
+
+(* headline: a recursive iterator started on graph g0 and run to exhaustion under any such schedule yields the
+   untouched nodes exactly once, in pre-order of the initial forest *)
+Theorem C11_rec_untouched_once_in_preorder :
+  forall subs fwd rk home, (forall x h, In h (subs x) -> rk h < rk (home x)) ->
+  forall U evs gs g0 gs' ys,
+    gwf gs -> homed home gs -> redits_ok subs fwd home U evs ->
+    rsrun subs fwd evs gs [(g0, Fresh, [])] = Some (gs', [], ys) ->
+    filter U ys = filter U (travg subs fwd rk gs g0 Fresh).
+Proof.
+  intros subs fwd rk home Hs U evs gs g0 gs' ys Hw Hh Hok Hr.
+  assert (Hv : svalid fwd gs [(g0, Fresh, [])]) by (constructor; [exact I|constructor]).
+  destruct (rsched_law subs fwd rk home Hs U evs gs _ gs' [] ys Hw Hh Hv Hok Hr) as [E _].
+  simpl in E. rewrite !app_nil_r in E. exact E.
+Qed.
+Print Assumptions C11_rec_untouched_once_in_preorder.
+
+(* the side condition is satisfiable: a node without subgraphs has nothing underneath *)
+Example C11_rec_clear_leaf :
+  forall subs fwd U gs x, subs x = [] -> clearU subs fwd U gs x.
+Proof. intros subs fwd U gs x E k y H. rewrite E in H. destruct H. Qed.
+
+(* a concrete nested traversal: graph 0 = [1;2], node 1 carries graphs 1 and 2, graph 1 = [11;12], graph 2 = [21];
+   remove the node being visited (11), append 13 to its graph, remove the enclosing node 1: the traversal goes on
+   inside the subgraphs, then returns to graph 0 at node 2.  Callbacks: enter/exit twice per subgraph. *)
+Definition ex_subs (x : elt) : list gid := if x =? 1 then [1; 2] else [].
+Definition ex_forest : forest := init_forest [[1; 2]; [11; 12]; [21]] 0.
+Example C11_rec_example :
+  exists gs' , rsrun ex_subs true
+     [RSStep; RSStep; RSEdit 1 (Remove 11); RSEdit 1 (Append 13); RSEdit 0 (Remove 1); RSStep; RSStep; RSStep; RSStep; RSStep]
+     ex_forest [(0, Fresh, [])] = Some (gs', [], [1; 11; 12; 13; 21; 2]) /\
+  option_map (fun r => snd r) (rnext ex_subs true ex_forest (RFresh 0)) = Some [CEnter 0] /\
+  option_map (fun r => snd r) (rnext_stack ex_subs true ex_forest [(0, Parked 0, [1; 2])])
+    = Some [CEnter 1; CEnter 1].
+Proof. eexists. vm_compute. repeat split. Qed.
 
 (* ---- non-vacuity: a reachable state with tombstones, a cursor parked on an erased box whose chain runs
         through a second erased box; the hypotheses of the theorems hold and the laws are observable *)
